@@ -168,6 +168,7 @@ func choiceViolations(n *dm.Node, t dm.Tree, where string) []string {
 func histRun(prop string) func(c histCase, o *hx.Obs) {
 	return func(c histCase, o *hx.Obs) {
 		root := c.Module.Root()
+		schemaClasses(o, c.Module)
 		mm, err := loadDM(c.Module)
 		if err != nil {
 			o.Failf("harness|schema-rejected", "generated schema does not load: %v\n%s", err, c.Module.Yang())
